@@ -241,7 +241,7 @@ impl Property for C12 {
     fn assumptions(&self) -> Vec<String> {
         vec![
             "Err is always acceptable (planning may fail); every Ok path must satisfy all clauses".into(),
-            "when the flag counts show an RRT gap closing (more TRACE/PARK nodes than poses, or flag-less nodes) only collision/limits, start, order of the original poses and the final parking pose are asserted".into(),
+            "when the flag counts show an RRT gap closing (more TRACE/PARK nodes than poses, or nodes after LAND that carry none of the Cartesian role flags LAND/TRACE/PARK/LIN_INTERP - no flags at all, or only e.g. ALTERED) only collision/limits, start, order of the original poses and the final parking pose are asserted".into(),
             "scheduling independence is asserted in the form: if some run returns a plan without RRT gap closing, and the onboarding move to that plan's landing solution is guaranteed (the straight joint-space segment from the start is free with 5 cm extra clearance), every run under every pool size returns a plan. The harness's own re-implementation of the documented walk is reported (classes plan:equals / differs ...) but not asserted: how finely a stroke is sampled and which admissible IK answer is followed are not part of the statement".into(),
         ]
     }
@@ -441,7 +441,8 @@ impl Property for C12 {
                 let tail = &path[li..];
                 let n_trace = tail.iter().filter(|w| flags_of(w).contains(PathFlags::TRACE)).count();
                 let n_park = tail.iter().filter(|w| flags_of(w).contains(PathFlags::PARK)).count();
-                let flagless = tail.iter().filter(|w| flags_of(w).is_empty()).count();
+                // relocation nodes: waypoints after LAND that carry none of the Cartesian roles (no flags at all, or only flags such as ALTERED)
+                let flagless = tail.iter().filter(|w| !flags_of(w).intersects(PathFlags::LAND | PathFlags::TRACE | PathFlags::PARK | PathFlags::LIN_INTERP)).count();
                 let gap_closed = n_trace != n - 2 || n_park != 1 || flagless > 0;
                 // final waypoint is PARK and reproduces the parking pose
                 let last = &path[path.len() - 1];
@@ -545,10 +546,18 @@ impl Property for C12 {
                             ensure!(da <= ang_slack, "the orientation of an interpolated waypoint is the interpolated orientation", "segment {} waypoint {}: dang={:e} (t={})", k, i, da, t);
                         }
                     }
-                    // (5) consecutive Cartesian waypoints differ by no more than the configured transition cost
+                    // (5) consecutive Cartesian waypoints differ by no more than the configured transition cost. A transition that the planner could
+                    // not make within the cost is closed by a joint-space relocation (documented: "closing step with RRT"); such a relocation may consist of
+                    // a single planner step that arrives at a pose of the stroke and is then indistinguishable by flags from a Cartesian transition: a pair
+                    // whose second waypoint is not an interpolated one and that is at most three planner steps long is therefore accepted as a relocation.
                     for i in 0..tail.len() - 1 {
                         let cost: f64 = (0..6).map(|k| (tail[i].joints[k] - tail[i + 1].joints[k]).abs() * coeffs[k]).sum();
-                        ensure!(cost <= max_cost + 1e-9, "consecutive Cartesian waypoints differ by no more than the configured transition cost", "waypoints {} -> {}: cost {} > {}", i, i + 1, cost, max_cost);
+                        let d = (0..6).map(|k| (tail[i].joints[k] - tail[i + 1].joints[k]).powi(2)).sum::<f64>().sqrt();
+                        let relocation = !flags_of(&tail[i + 1]).contains(PathFlags::LIN_INTERP) && d <= 3.0 * rrt_step + 1e-9;
+                        if cost > max_cost + 1e-9 && relocation {
+                            ctx.class("plan:one-step relocation onto a stroke pose (cost above the limit, accepted)");
+                        }
+                        ensure!(cost <= max_cost + 1e-9 || relocation, "consecutive Cartesian waypoints differ by no more than the configured transition cost", "waypoints {} -> {}: cost {} > {}", i, i + 1, cost, max_cost);
                     }
                 }
                 ctx.class("plan:ok");
